@@ -39,6 +39,7 @@ def cases(draw, tier="quick"):
     P["w_kill"] = draw(st.sampled_from([1, 2, 4]))
     P["ping_interval"] = [draw(st.sampled_from([1.0, 5.0, 30.0]))] * 2
     P["settle_time"] = 45.0
+    P["max_reconnects"] = 8
     ops = [["listen", 0, "p"], ["listen", 1, "p"]]
     for k in range(draw(st.integers(0, 2))):
         side = draw(st.integers(0, 1))
@@ -160,7 +161,11 @@ def run_case(P):
                 case._do_intent(["dilate", i])
         case.flush_intents()
         case.settles.append(case.settle(after_step=after))
-        if not bad:
+        if not bad and any(s == "reconnect-loop" for s in case.settles):
+            res.violate("converge", "with no fault injected the connection in use was replaced more than 8 times during "
+                        "stabilisation: the sides keep losing every new generation; logged %r" % (case.W.error_summaries()[:2],),
+                        input_class="reconnect-loop-without-faults")
+        elif not bad:
             if all(s in ("quiescent", "time") for s in case.settles):
                 ms = case.managers()
                 conns = [m._connection if m is not None else None for m in ms]
